@@ -321,13 +321,20 @@ theorem orf_next_source_pinned_test_eq_findAll (T : Nat → Nat → Nat → Rs.R
   rw [Model.OrfScan.findAll_eq_findAllP] at hf ⊢
   exact orf_next_source_eq_model T _ seq starts stops minLen hT h3s hlen fuel hf
 
--- non-vacuity: the translated `next` on ATG ATG AAA TAA G ATG TAG, min_len 0 and 9 (the frame 3..12 has length 9:
--- inside the slack for min_len 9, the source's test drops it, the oracle accepts either)
-example : GenSrcOrf.collect Gen.SrcOrf.next_lenTest [[65, 84, 71]] [[84, 65, 65], [84, 65, 71]] 9 9 [[], [], []] [] []
+-- non-vacuity: the translated `next` on ATG ATG AAA TAA G ATG TAG (frames of length 12, 9 and 6).  The minimum lengths
+-- are chosen outside the slack of every frame (3: all three are longer than 3 + 2; 13: none is at least 13 long), so that
+-- a source change that only moves the length test inside the slack does not break the examples.
+example : GenSrcOrf.collect Gen.SrcOrf.next_lenTest [[65, 84, 71]] [[84, 65, 65], [84, 65, 71]] 3 9 [[], [], []] [] []
     (GenSrcOrf.enumFrom 0 [65, 84, 71, 65, 84, 71, 65, 65, 65, 84, 65, 65, 71, 65, 84, 71, 84, 65, 71])
-    = Rs.Res.ok [(0, 12, 0)] := by decide +kernel
+    = Rs.Res.ok [(0, 12, 0), (3, 12, 0), (13, 19, 1)] := by decide +kernel
+example : GenSrcOrf.collect Gen.SrcOrf.next_lenTest [[65, 84, 71]] [[84, 65, 65], [84, 65, 71]] 13 9 [[], [], []] [] []
+    (GenSrcOrf.enumFrom 0 [65, 84, 71, 65, 84, 71, 65, 65, 65, 84, 65, 65, 71, 65, 84, 71, 84, 65, 71])
+    = Rs.Res.ok [] := by decide +kernel
+-- inside the slack both answers are accepted: min_len 9, the frame 3..12 of length 9 may be reported or not
 example : Orf.acceptOrf [65, 84, 71, 65, 84, 71, 65, 65, 65, 84, 65, 65, 71, 65, 84, 71, 84, 65, 71]
-    [[65, 84, 71]] [[84, 65, 65], [84, 65, 71]] 9 [(0, 12, 0), (3, 12, 0)] = true := by decide +kernel
+    [[65, 84, 71]] [[84, 65, 65], [84, 65, 71]] 9 [(0, 12, 0), (3, 12, 0)] = true ∧
+  Orf.acceptOrf [65, 84, 71, 65, 84, 71, 65, 65, 65, 84, 65, 65, 71, 65, 84, 71, 84, 65, 71]
+    [[65, 84, 71]] [[84, 65, 65], [84, 65, 71]] 9 [(0, 12, 0)] = true := by decide +kernel
 
 /-! ## GC content -/
 
